@@ -116,7 +116,7 @@ CHECKS = {
         assumptions=[OS_ASSUMPTION, "files handed out by a mask expose all optional file interfaces (forwarded through the file helpers)", "a failing Close is injected only for files opened for writing"],
         legs=[
             dict(name="mem", run="^TestMem$", quick=300, thorough=3000, shards=6),
-            dict(name="osfs", run="^TestOSFS$", quick=120, thorough=1200, shards=6),
+            dict(name="osfs", run="^TestOSFS$", quick=720, thorough=6000, shards=6, quick_shards=6),
             dict(name="filehelpers", run="^TestFileHelpers$"),
         ],
     ),
